@@ -1,9 +1,28 @@
-import BumpProof.Lemmas.CtrlState
+import BumpProof.Lemmas.CtrlPrep
+import BumpProof.Lemmas.CtrlCommit
 open Arena Rs Ctrl Lemmas
 
-theorem xx {cfg : Cfg} {s s' : State} {size : Nat} {r : Except AErr Nat}
-    (h : newChunk cfg s size = .ok (s', r)) : s'.cur = s.cur := by
-  unfold newChunk at h
-  simp only at h
-  trace_state
-  sorry
+theorem step_prepareSlice_effect (cfg : Cfg) (g g' : GState) (esize ealign minCap : Nat) (rev : Bool) (o : Out)
+    (i : Nat) (c : Chunk) (hcur : g.s.cur = .chunk i) (hget : g.s.chunks[i]? = some c)
+    (hr : stepCore cfg g (.prepareSlice esize ealign minCap rev) = .ok (g', o)) :
+    g'.marks = g.marks := by
+  rw [stepCore] at hr
+  split at hr
+  · cases hr
+  · simp only [R_pure_bind] at hr
+    split at hr
+    · sorry
+    · split at hr
+      · sorry
+      · trace_state
+        sorry
+
+theorem step_fillPrepared_shape (cfg : Cfg) (g g' : GState) (len seed : Nat) (o : Out)
+    (hr : stepCore cfg g (.fillPrepared len seed) = .ok (g', o)) :
+    SameShape g.s g'.s ∧ g'.marks = g.marks := by
+  rw [stepCore] at hr
+  split at hr
+  · rename_i p hp
+    trace_state
+    sorry
+  · cases hr
